@@ -8,6 +8,7 @@ import Mathlib.Tactic.Positivity
 import Mathlib.Tactic.ByContra
 import Mathlib.Algebra.Order.Field.Rat
 import Mathlib.Data.List.Nodup
+import Mathlib.Tactic.Tauto
 
 namespace OdcGeo.C14
 
@@ -481,6 +482,54 @@ theorem webTiles_eq_new {P : Rat} (hP : 0 < P) (z : Int) {npix : Int} (hn : 0 < 
     unfold rabs; rw [if_pos ry_neg]; field_simp
   rw [webTiles_ok hP z hn, new_eq_ok _ _ _ _ (by rw [e1]; exact ht) (by rw [e2]; exact ht), e1, e2]
   rfl
+
+end GridSpec
+
+/-! ### geobox cache (holds for every rounding function) -/
+namespace GridSpec
+
+theorem geoboxC_spec (fl : Rnd) (g : GridSpec) (c : Cache) (hc : g.Coherent fl c) (k : Int × Int) :
+    (g.geoboxC fl c k).1 = g.tileGeobox fl k ∧ g.Coherent fl (g.geoboxC fl c k).2 ∧
+    ∀ k', ((g.geoboxC fl c k).2.lookup k').isSome ↔ ((c.lookup k').isSome ∨ k' = k) := by
+  unfold GridSpec.geoboxC
+  cases h : c.lookup k with
+  | some gb =>
+    refine ⟨hc k gb h, hc, fun k' => ?_⟩
+    constructor
+    · exact Or.inl
+    · rintro (h' | rfl)
+      · exact h'
+      · simp [h]
+  | none =>
+    refine ⟨rfl, ?_, fun k' => ?_⟩
+    · intro k' gb' h'
+      simp only [List.lookup_cons] at h'
+      by_cases e : k' = k
+      · subst e; simp at h'; exact h'.symm
+      · have : (k' == k) = false := by simpa using e
+        rw [this] at h'
+        exact hc k' gb' h'
+    · simp only [List.lookup_cons]
+      by_cases e : k' = k
+      · subst e; simp
+      · have : (k' == k) = false := by simpa using e
+        rw [this]; simp [e]
+
+theorem tilesGo_spec (fl : Rnd) (g : GridSpec) : ∀ (ks : List (Int × Int)) (c : Cache), g.Coherent fl c →
+    (g.tilesGo fl ks c).1 = ks.map (fun k => (k, g.tileGeobox fl k)) ∧ g.Coherent fl (g.tilesGo fl ks c).2 ∧
+    ∀ k', ((g.tilesGo fl ks c).2.lookup k').isSome ↔ ((c.lookup k').isSome ∨ k' ∈ ks) := by
+  intro ks
+  induction ks with
+  | nil => intro c hc; exact ⟨rfl, hc, fun k' => by simp [GridSpec.tilesGo]⟩
+  | cons k ks ih =>
+    intro c hc
+    obtain ⟨h1, h2, h3⟩ := geoboxC_spec fl g c hc k
+    obtain ⟨i1, i2, i3⟩ := ih (g.geoboxC fl c k).2 h2
+    simp only [GridSpec.tilesGo, List.map_cons]
+    refine ⟨by rw [h1, i1], i2, fun k' => ?_⟩
+    rw [i3 k', h3 k']
+    simp only [List.mem_cons]
+    tauto
 
 end GridSpec
 end OdcGeo.C14
